@@ -108,3 +108,855 @@ theorem trim_len (s : Str) : (trim s).length ≤ s.length :=
 
 end Str
 end I18nVerif
+
+namespace I18nVerif.Parse
+open I18nVerif Str
+
+theorem findOpeningTag_len {v before key after : Str} {skip : Nat}
+    (h : findOpeningTag v = some (before, key, after, skip)) :
+    skip + after.length = v.length ∧ before.length + 2 ≤ skip := by
+  unfold findOpeningTag at h
+  split at h
+  · simp at h
+  · rename_i b rest h1
+    split at h
+    · simp at h
+    · rename_i ident aft h2
+      simp only [Option.some.injEq, Prod.mk.injEq] at h
+      obtain ⟨rfl, _, rfl, rfl⟩ := h
+      have := splitOnceC_len h1
+      have := splitOnceC_len h2
+      omega
+
+/-- offsets produced by the scan of `find_closing_tag` stay inside the scanned text -/
+theorem closingScan_bounds (key : Str) (lo N : Nat) :
+    ∀ (s : Str) (i d : Nat) (f : Option (Nat × Nat)) (a b : Nat),
+      lo ≤ i → i + s.length = N →
+      (∀ a b, f = some (a, b) → lo ≤ a ∧ a + 2 ≤ b ∧ b ≤ N) →
+      closingScan key s i d f = some (a, b) → lo ≤ a ∧ a + 2 ≤ b ∧ b ≤ N := by
+  intro s
+  induction s with
+  | nil =>
+    intro i d f a b _ _ hf h
+    simp only [closingScan] at h
+    exact hf a b h
+  | cons c cs ih =>
+    intro i d f a b hlo hN hf h
+    have hN' : i + 1 + cs.length = N := by simp only [List.length_cons] at hN; omega
+    have hlo' : lo ≤ i + 1 := by omega
+    simp only [closingScan] at h
+    split at h
+    · split at h
+      · exact ih _ _ _ a b hlo' hN' hf h
+      · rename_i identRaw rest hsp
+        have hl := splitOnceC_len hsp
+        split at h
+        · split at h
+          · exact ih _ _ _ a b hlo' hN' hf h
+          · split at h
+            · refine ih _ _ _ a b hlo' hN' ?_ h
+              intro a' b' hab
+              simp only [Option.some.injEq, Prod.mk.injEq] at hab
+              obtain ⟨rfl, rfl⟩ := hab
+              omega
+            · exact ih _ _ _ a b hlo' hN' hf h
+        · split at h
+          · exact ih _ _ _ a b hlo' hN' hf h
+          · exact ih _ _ _ a b hlo' hN' hf h
+    · exact ih _ _ _ a b hlo' hN' hf h
+
+theorem findClosingTag_len {value key keyIdent between after : Str}
+    (h : findClosingTag value key = some (keyIdent, between, after)) :
+    between.length + 2 + after.length ≤ value.length := by
+  unfold findClosingTag at h
+  split at h
+  · simp at h
+  · split at h
+    · simp at h
+    · rename_i start stop hs
+      simp only [Option.some.injEq, Prod.mk.injEq] at h
+      obtain ⟨_, rfl, rfl⟩ := h
+      have := closingScan_bounds key 0 value.length value 0 0 none start stop (Nat.le_refl _) (by simp)
+        (by intro a b h; simp at h) hs
+      simp only [List.length_take, List.length_drop]
+      omega
+
+theorem findValidComponent_len :
+    ∀ (fuel : Nat) (value : Str) (k : Nat) {keyIdent before between after : Str},
+      findValidComponent fuel value k = some (keyIdent, before, between, after) →
+      before.length + between.length + after.length + 4 ≤ value.length := by
+  intro fuel
+  induction fuel with
+  | zero => intro value k _ _ _ _ h; simp [findValidComponent] at h
+  | succ fuel ih =>
+    intro value k keyIdent before between after h
+    simp only [findValidComponent] at h
+    split at h
+    · simp at h
+    · rename_i b key aft skip ho
+      have ⟨h1, h2⟩ := findOpeningTag_len ho
+      split at h
+      · rename_i ki bt af hc
+        simp only [Option.some.injEq, Prod.mk.injEq] at h
+        obtain ⟨_, rfl, rfl, rfl⟩ := h
+        have := findClosingTag_len hc
+        simp only [List.length_take, List.length_drop] at *
+        omega
+      · exact ih value _ h
+
+/-- the slice `value[..skip_sum + before.len()]` of `find_valid_component` is within the string -/
+theorem findValidComponent_before :
+    ∀ (fuel : Nat) (value : Str) (k : Nat) {keyIdent before between after : Str},
+      findValidComponent fuel value k = some (keyIdent, before, between, after) →
+      ∃ k' b, before = value.take (k' + b) ∧ k ≤ k' ∧ k' + b + 2 ≤ value.length := by
+  intro fuel
+  induction fuel with
+  | zero => intro value k _ _ _ _ h; simp [findValidComponent] at h
+  | succ fuel ih =>
+    intro value k keyIdent before between after h
+    simp only [findValidComponent] at h
+    split at h
+    · simp at h
+    · rename_i b key aft skip ho
+      have ⟨h1, h2⟩ := findOpeningTag_len ho
+      split at h
+      · rename_i ki bt af hc
+        simp only [Option.some.injEq, Prod.mk.injEq] at h
+        obtain ⟨_, rfl, rfl, rfl⟩ := h
+        refine ⟨k, b.length, rfl, Nat.le_refl _, ?_⟩
+        simp only [List.length_drop] at h1
+        have := findClosingTag_len hc
+        omega
+      · obtain ⟨k', b', e, hk, hb⟩ := ih value _ h
+        exact ⟨k', b', e, by omega, hb⟩
+
+/-- the fuel `value.length + 1` of `find_valid_component` is never the reason for `none`:
+    any two amounts of fuel larger than the remaining length give the same answer -/
+theorem findValidComponent_fuel :
+    ∀ (fuel fuel' : Nat) (value : Str) (k : Nat),
+      value.length < k + fuel → value.length < k + fuel' →
+      findValidComponent fuel value k = findValidComponent fuel' value k := by
+  intro fuel
+  induction fuel with
+  | zero =>
+    intro fuel' value k h1 _
+    have : value.drop k = [] := by simp; omega
+    cases fuel' with
+    | zero => rfl
+    | succ f => simp [findValidComponent, this, findOpeningTag, splitOnceC]
+  | succ fuel ih =>
+    intro fuel' value k h1 h2
+    cases fuel' with
+    | zero =>
+      have : value.drop k = [] := by simp; omega
+      simp [findValidComponent, this, findOpeningTag, splitOnceC]
+    | succ f =>
+      simp only [findValidComponent]
+      split
+      · rfl
+      · rename_i b key aft skip ho
+        have ⟨h3, h4⟩ := findOpeningTag_len ho
+        split
+        · rfl
+        · exact ih f value _ (by omega) (by omega)
+
+end I18nVerif.Parse
+
+namespace I18nVerif.Json
+open I18nVerif Str
+
+/-! ### JSON reader: decoded strings are shorter than their source
+
+`strBody` matches on `Char` literals with overlapping patterns; Lean cannot generate its equation
+lemmas (`strBody.eq_def` runs into the recursion limit), so the function is unfolded by hand:
+`strBody (c :: rest) = strBody._f (c :: rest) (brecOn.go rest _)` and the matcher equations. -/
+
+theorem strBody_cons (c : Char) (rest : Str) :
+    strBody (c :: rest) = strBody._f (c :: rest) (List.brecOn.go rest strBody._f) := by
+  delta strBody
+  rfl
+theorem strBody_fst (rest : Str) :
+    (List.brecOn.go rest strBody._f).1 = strBody rest := by
+  delta strBody
+  rfl
+theorem strBody_p1 (e : Char) (rest : Str) :
+    (List.brecOn.go (e :: rest) strBody._f).2.1 = strBody rest := by
+  delta strBody
+  rfl
+theorem strBody_p5 (u a b c d : Char) (rest : Str) :
+    (List.brecOn.go (u :: a :: b :: c :: d :: rest) strBody._f).2.2.2.2.2.1 = strBody rest := by
+  delta strBody
+  rfl
+
+theorem strBody_len (s : Str) : ∀ {t r : Str}, strBody s = some (t, r) →
+    t.length + r.length + 1 ≤ s.length := by
+  induction s using strBody.induct with
+  | case1 => intro t r h; exact absurd h (by simp [show strBody [] = none from rfl])
+  | case2 rest =>
+    intro t r h
+    rw [show strBody ('"' :: rest) = some ([], rest) from rfl] at h
+    simp only [Option.some.injEq, Prod.mk.injEq] at h
+    obtain ⟨rfl, rfl⟩ := h
+    simp
+  | case3 a b c d rest hh =>
+    intro t r h
+    rw [strBody_cons] at h
+    generalize List.brecOn.go ('u'::a::b::c::d::rest) strBody._f = B at h
+    unfold strBody._f at h
+    simp [hh] at h
+  | case4 a b c d lo hh hs a' b' c' d' rest' hh' =>
+    intro t r h
+    rw [strBody_cons] at h
+    generalize List.brecOn.go ('u'::a::b::c::d::'\\'::'u'::a'::b'::c'::d'::rest') strBody._f = B at h
+    unfold strBody._f at h
+    simp [hh, hs, hh'] at h
+  | case5 a b c d lo hh hs a' b' c' d' rest' lo' hh' hs' ch t0 r0 hb hsc ih =>
+    intro t r h
+    rw [strBody_cons] at h
+    generalize hB : List.brecOn.go ('u'::a::b::c::d::'\\'::'u'::a'::b'::c'::d'::rest') strBody._f = B at h
+    unfold strBody._f at h
+    simp only [hh, hs, hh', hs', if_true] at h
+    split at h
+    · rename_i ch1 t1 r1 h1 h2
+      subst hB
+      have h2' : strBody rest' = some (t1, r1) := by delta strBody; exact h2
+      have := ih h2'
+      simp only [Option.some.injEq, Prod.mk.injEq] at h
+      rw [← h.1, ← h.2]
+      simp only [List.length_cons]; omega
+    · exact absurd h (by simp)
+  | case6 a b c d lo hh hs a' b' c' d' rest' lo' hh' hs' hno ih =>
+    intro t r h
+    rw [strBody_cons] at h
+    generalize hB : List.brecOn.go ('u'::a::b::c::d::'\\'::'u'::a'::b'::c'::d'::rest') strBody._f = B at h
+    unfold strBody._f at h
+    simp only [hh, hs, hh', hs', if_true] at h
+    split at h
+    · rename_i ch1 t1 r1 h1 h2
+      subst hB
+      have h2' : strBody rest' = some (t1, r1) := by delta strBody; exact h2
+      exact (hno ch1 t1 r1 h1 h2').elim
+    · exact absurd h (by simp)
+  | case7 a b c d lo hh hs a' b' c' d' rest' lo' hh' hs' =>
+    intro t r h
+    rw [strBody_cons] at h
+    generalize List.brecOn.go ('u'::a::b::c::d::'\\'::'u'::a'::b'::c'::d'::rest') strBody._f = B at h
+    unfold strBody._f at h
+    simp [hh, hs, hh', hs'] at h
+  | case8 a b c d rest lo hh hs hne =>
+    intro t r h
+    rw [strBody_cons] at h
+    generalize List.brecOn.go ('u'::a::b::c::d::rest) strBody._f = B at h
+    unfold strBody._f at h
+    simp only [hh, hs, if_true] at h
+    exact absurd h (by simp)
+  | case9 a b c d rest lo hh hs ch t0 r0 hb hsc ih =>
+    intro t r h
+    rw [strBody_cons] at h
+    have hp := strBody_p5 'u' a b c d rest
+    generalize List.brecOn.go ('u'::a::b::c::d::rest) strBody._f = B at h hp
+    unfold strBody._f at h
+    simp only [hh, hs, hp, hb, hsc] at h
+    have h' : ch :: t0 = t ∧ r0 = r := by simpa using h
+    obtain ⟨h1, h2⟩ := h'
+    have := ih hb
+    rw [← h1, ← h2]
+    simp only [List.length_cons]; omega
+  | case10 a b c d rest lo hh hs hno ih =>
+    intro t r h
+    rw [strBody_cons] at h
+    have hp := strBody_p5 'u' a b c d rest
+    generalize List.brecOn.go ('u'::a::b::c::d::rest) strBody._f = B at h hp
+    unfold strBody._f at h
+    simp only [hh, hs, hp] at h
+    exact absurd h (by simp)
+  | case11 e rest hne dec ch t0 r0 hb hd =>
+    rename_i ih
+    intro t r h
+    rw [strBody_cons] at h
+    have hp := strBody_p1 e rest
+    generalize List.brecOn.go (e :: rest) strBody._f = B at h hp
+    unfold strBody._f at h
+    rw [strBody.match_11.eq_4 _ _ _ _ _ _ _ _ hne] at h
+    simp only [hp, hb] at h
+    simp only [dec] at hd
+    rw [hd] at h
+    have h' : ch :: t0 = t ∧ r0 = r := by simpa using h
+    obtain ⟨h1, h2⟩ := h'
+    have := ih hb
+    rw [← h1, ← h2]
+    simp only [List.length_cons]; omega
+  | case12 e rest hne dec hno =>
+    rename_i ih
+    intro t r h
+    rw [strBody_cons] at h
+    have hp := strBody_p1 e rest
+    generalize List.brecOn.go (e :: rest) strBody._f = B at h hp
+    unfold strBody._f at h
+    rw [strBody.match_11.eq_4 _ _ _ _ _ _ _ _ hne] at h
+    simp only [hp] at h
+    split at h
+    · rename_i ch t0 r0 h1 h2
+      exact (hno ch t0 r0 h1 h2).elim
+    · exact absurd h (by simp)
+  | case13 c rest h1 h2 h3 hc =>
+    intro t r h
+    rw [strBody_cons] at h
+    have hp := strBody_fst rest
+    generalize List.brecOn.go rest strBody._f = B at h hp
+    unfold strBody._f at h
+    rw [strBody.match_11.eq_5 _ _ _ _ _ _ _ _ h1 h2 h3] at h
+    simp only [hc, if_true] at h
+    exact absurd h (by simp)
+  | case14 c rest h1 h2 h3 hc t0 r0 hb ih =>
+    intro t r h
+    rw [strBody_cons] at h
+    have hp := strBody_fst rest
+    generalize List.brecOn.go rest strBody._f = B at h hp
+    unfold strBody._f at h
+    rw [strBody.match_11.eq_5 _ _ _ _ _ _ _ _ h1 h2 h3] at h
+    simp [hc, hp, hb] at h
+    have h' : c :: t0 = t ∧ r0 = r := by simpa using h
+    obtain ⟨h1, h2⟩ := h'
+    have := ih hb
+    rw [← h1, ← h2]
+    simp only [List.length_cons]; omega
+  | case15 c rest h1 h2 h3 hc hb ih =>
+    intro t r h
+    rw [strBody_cons] at h
+    have hp := strBody_fst rest
+    generalize List.brecOn.go rest strBody._f = B at h hp
+    unfold strBody._f at h
+    rw [strBody.match_11.eq_5 _ _ _ _ _ _ _ _ h1 h2 h3] at h
+    simp [hp, hb] at h
+
+theorem numberRaw_len {s : Str} {v : JLit} {rest : Str} (h : numberRaw s = some (v, rest)) :
+    rest.length ≤ s.length ∧ (∀ t, v ≠ .str t) := by
+  unfold numberRaw at h
+  simp only at h
+  have e1 : (numberRaw.match_1 (fun _ => Bool × List Char) s (fun r => (true, r)) fun _ => (false, s)).snd.length ≤ s.length := by
+    split <;> simp
+  generalize (numberRaw.match_1 (fun _ => Bool × List Char) s (fun r => (true, r)) fun _ => (false, s)) = p1 at h e1
+  have e2 : (numberRaw.match_3 (fun _ => List Char × List Char × Bool) (List.dropWhile isDigit p1.snd) (fun r => (List.takeWhile isDigit r, List.dropWhile isDigit r, true)) fun _ => ([], List.dropWhile isDigit p1.snd, false)).2.fst.length ≤ p1.snd.length := by
+    have h0 := (List.dropWhile_sublist isDigit (l := p1.snd)).length_le
+    split
+    · rename_i r hr
+      have h1 := (List.dropWhile_sublist isDigit (l := r)).length_le
+      rw [hr] at h0
+      simp only [List.length_cons] at h0
+      show (List.dropWhile isDigit r).length ≤ _
+      omega
+    · exact h0
+  generalize (numberRaw.match_3 (fun _ => List Char × List Char × Bool) (List.dropWhile isDigit p1.snd) (fun r => (List.takeWhile isDigit r, List.dropWhile isDigit r, true)) fun _ => ([], List.dropWhile isDigit p1.snd, false)) = p2 at h e2
+  split at h
+  · simp at h
+  split at h
+  · simp at h
+  split at h
+  · simp at h
+  split at h
+  · simp at h
+  rename_i ex rest' hex
+  have e3 : rest'.length ≤ p2.2.fst.length := by
+    split at hex
+    · rename_i c r hc
+      split at hex
+      · have e4 : (numberRaw.match_5 (fun _ => Bool × List Char) r (fun r' => (true, r')) (fun r' => (false, r')) fun _ => (false, r)).snd.length ≤ r.length := by
+          split <;> simp
+        generalize (numberRaw.match_5 (fun _ => Bool × List Char) r (fun r' => (true, r')) (fun r' => (false, r')) fun _ => (false, r)) = p3 at hex e4
+        split at hex
+        · simp at hex
+        · simp only [Option.some.injEq, Prod.mk.injEq] at hex
+          rw [← hex.2, hc]
+          have := (List.dropWhile_sublist isDigit (l := p3.snd)).length_le
+          simp only [List.length_cons]
+          omega
+      · simp only [Option.some.injEq, Prod.mk.injEq] at hex
+        rw [← hex.2]; exact Nat.le_refl _
+    · simp only [Option.some.injEq, Prod.mk.injEq] at hex
+      rw [← hex.2]; exact Nat.le_refl _
+  clear hex
+  have hl : rest'.length ≤ s.length := by omega
+  repeat' split at h
+  all_goals
+    simp only [Option.some.injEq, Prod.mk.injEq] at h
+    obtain ⟨rfl, rfl⟩ := h
+    exact ⟨hl, by intro t; simp⟩
+
+theorem checkFinite_eq {r : Option (JLit × Str)} {v : JLit} {rest : Str}
+    (h : checkFinite r = some (v, rest)) : r = some (v, rest) := by
+  unfold checkFinite at h
+  split at h
+  · split at h
+    · exact h
+    · simp at h
+  · exact h
+
+theorem number_len {s : Str} {v : JLit} {rest : Str} (h : number s = some (v, rest)) :
+    rest.length ≤ s.length ∧ (∀ t, v ≠ .str t) :=
+  numberRaw_len (checkFinite_eq h)
+
+
+theorem value_len {s : Str} {v : JLit} {rest : Str} (h : value s = some (v, rest)) :
+    rest.length ≤ s.length ∧ (∀ t, v = .str t → t.length + rest.length + 2 ≤ s.length) := by
+  unfold value at h
+  split at h
+  · rename_i r
+    cases hb : strBody r with
+    | none => simp [hb] at h
+    | some p =>
+      obtain ⟨t0, r0⟩ := p
+      have := strBody_len r hb
+      simp only [hb, Option.map_some, Option.some.injEq, Prod.mk.injEq] at h
+      obtain ⟨rfl, rfl⟩ := h
+      refine ⟨by simp only [List.length_cons]; omega, ?_⟩
+      intro t ht
+      simp only [JLit.str.injEq] at ht
+      subst ht
+      simp only [List.length_cons]; omega
+  · simp only [Option.some.injEq, Prod.mk.injEq] at h
+    obtain ⟨rfl, rfl⟩ := h
+    exact ⟨by simp only [List.length_cons]; omega, by intro t ht; simp at ht⟩
+  · simp only [Option.some.injEq, Prod.mk.injEq] at h
+    obtain ⟨rfl, rfl⟩ := h
+    exact ⟨by simp only [List.length_cons]; omega, by intro t ht; simp at ht⟩
+  · have := number_len h
+    exact ⟨this.1, fun t ht => absurd ht (this.2 t)⟩
+
+theorem skipWs_len (s : Str) : (skipWs s).length ≤ s.length :=
+  (List.dropWhile_sublist _).length_le
+
+/-- every string value of the object is strictly shorter than the object text -/
+theorem members_len : ∀ (fuel : Nat) (first : Bool) (s : Str) {ms : List (Str × JLit)} {rest : Str},
+    members fuel first s = some (ms, rest) →
+    ∀ k t, (k, JLit.str t) ∈ ms → t.length < s.length := by
+  intro fuel
+  induction fuel with
+  | zero => intro first s ms rest h; simp [members] at h
+  | succ fuel ih =>
+    intro first s ms rest h k t hm
+    simp only [members] at h
+    have hs := skipWs_len s
+    split at h
+    · split at h
+      · simp only [Option.some.injEq, Prod.mk.injEq] at h
+        rw [← h.1] at hm; simp at hm
+      · simp at h
+    · rename_i s1 hne
+      split at h
+      · simp at h
+      rename_i s2 hs2
+      have hs2l : s2.length ≤ s.length := by
+        split at hs2
+        · simp only [Option.some.injEq] at hs2; rw [← hs2]; exact hs
+        · split at hs2
+          · rename_i r hr
+            simp only [Option.some.injEq] at hs2
+            rw [← hs2]
+            have := skipWs_len r
+            rw [hr] at hs
+            simp only [List.length_cons] at hs
+            omega
+          · simp at hs2
+      clear hs2
+      split at h
+      · rename_i r
+        split at h
+        · simp at h
+        rename_i k0 r1 hb
+        have hbl := strBody_len r hb
+        split at h
+        · rename_i r2 hr2
+          have h1 := skipWs_len r1
+          rw [hr2] at h1
+          have h2 := skipWs_len r2
+          split at h
+          · simp at h
+          rename_i v r3 hv
+          have ⟨hv1, hv2⟩ := value_len hv
+          have h3 := skipWs_len r3
+          simp only [List.length_cons] at h1 hs2l
+          split at h
+          · simp only [Option.some.injEq, Prod.mk.injEq] at h
+            rw [← h.1] at hm
+            simp only [List.mem_singleton, Prod.mk.injEq] at hm
+            have := hv2 t hm.2.symm
+            omega
+          · split at h
+            · rename_i ms' rest' hrec
+              simp only [Option.some.injEq, Prod.mk.injEq] at h
+              rw [← h.1] at hm
+              simp only [List.mem_cons, Prod.mk.injEq] at hm
+              rcases hm with hm | hm
+              · have := hv2 t hm.2.symm
+                omega
+              · have := ih _ _ hrec k t hm
+                omega
+            · simp at h
+        · simp at h
+      · simp at h
+
+theorem parseObject_len {s : Str} {ms : List (Str × JLit)} (h : parseObject s = some ms) :
+    ∀ k t, (k, JLit.str t) ∈ ms → t.length < s.length := by
+  unfold parseObject at h
+  split at h
+  · rename_i r hr
+    split at h
+    · rename_i ms' rest hm
+      split at h
+      · simp only [Option.some.injEq] at h
+        subst h
+        intro k t hkt
+        have := members_len _ _ _ hm k t hkt
+        have h1 := skipWs_len s
+        rw [hr] at h1
+        simp only [List.length_cons] at h1
+        omega
+      · simp at h
+    · simp at h
+  · simp at h
+
+end I18nVerif.Json
+
+namespace I18nVerif
+open Str
+
+namespace AMap
+theorem mem_insert' {α} {k k' : Str} {v v' : α} {m : List (Str × α)}
+    (h : (k, v) ∈ insert' k' v' m) : (k, v) = (k', v') ∨ (k, v) ∈ m := by
+  unfold insert' at h
+  induction m with
+  | nil => simp [insert] at h; left; simp [h]
+  | cons p rest ih =>
+    obtain ⟨k0, v0⟩ := p
+    simp only [insert] at h
+    split at h
+    · simp only [List.mem_cons] at h
+      rcases h with h | h
+      · left; exact h
+      · right; simp [h]
+    · split at h
+      · simp only [List.mem_cons] at h
+        rcases h with h | h | h
+        · left; exact h
+        · right; simp [h]
+        · right; simp [h]
+      · simp only [List.mem_cons] at h
+        rcases h with h | h
+        · right; simp [h]
+        · rcases ih h with h | h
+          · left; exact h
+          · right; simp [h]
+
+theorem mem_foldl_insert' {α} (l : List (Str × α)) (m : List (Str × α)) {k : Str} {v : α}
+    (h : (k, v) ∈ l.foldl (fun m (p : Str × α) => insert' p.1 p.2 m) m) : (k, v) ∈ m ∨ (k, v) ∈ l := by
+  induction l generalizing m with
+  | nil => left; simpa using h
+  | cons p rest ih =>
+    simp only [List.foldl_cons] at h
+    rcases ih _ h with h | h
+    · rcases mem_insert' h with h | h
+      · right; simp [h]
+      · left; exact h
+    · right; simp [h]
+
+theorem mem_ofList {α} {l : List (Str × α)} {k : Str} {v : α} (h : (k, v) ∈ ofList l) : (k, v) ∈ l := by
+  unfold ofList at h
+  rcases mem_foldl_insert' l [] h with h | h
+  · simp at h
+  · exact h
+end AMap
+
+namespace Formatter
+theorem parseFormatter_np (s : Str) : (parseFormatter s).isPanic = false := by
+  unfold parseFormatter
+  simp only
+  split <;> rfl
+end Formatter
+
+namespace Parse
+
+/-- `rec_` does not panic on any string shorter than `n` -/
+def NPbelow (rec_ : Str → Res PV) (n : Nat) : Prop := ∀ x : Str, x.length < n → (rec_ x).isPanic = false
+/-- `r1` and `r2` agree on every string shorter than `n` -/
+def Agree (r1 r2 : Str → Res PV) (n : Nat) : Prop := ∀ x : Str, x.length < n → r1 x = r2 x
+
+theorem go_np (rec_ : Str → Res PV) : ∀ (l : List (Str × Json.JLit)) (acc : List (Str × PV)),
+    (∀ k t, (k, Json.JLit.str t) ∈ l → (rec_ t).isPanic = false) →
+    (parseFKArgsInner.go rec_ l acc).isPanic = false := by
+  intro l
+  induction l with
+  | nil => intro acc _; rfl
+  | cons p rest ih =>
+    intro acc h
+    obtain ⟨k, v⟩ := p
+    simp only [parseFKArgsInner.go]
+    have hrest : ∀ k t, (k, Json.JLit.str t) ∈ rest → (rec_ t).isPanic = false :=
+      fun k t hm => h k t (by simp [hm])
+    cases v with
+    | str t =>
+      have := h k t (by simp)
+      simp only
+      split
+      · exact ih _ hrest
+      · rfl
+      · rename_i p hp; rw [hp] at this; simp at this
+    | _ => simp only; exact ih _ hrest
+
+theorem go_congr (r1 r2 : Str → Res PV) : ∀ (l : List (Str × Json.JLit)) (acc : List (Str × PV)),
+    (∀ k t, (k, Json.JLit.str t) ∈ l → r1 t = r2 t) →
+    parseFKArgsInner.go r1 l acc = parseFKArgsInner.go r2 l acc := by
+  intro l
+  induction l with
+  | nil => intro acc _; rfl
+  | cons p rest ih =>
+    intro acc h
+    obtain ⟨k, v⟩ := p
+    simp only [parseFKArgsInner.go]
+    have hrest : ∀ k t, (k, Json.JLit.str t) ∈ rest → r1 t = r2 t :=
+      fun k t hm => h k t (by simp [hm])
+    cases v with
+    | str t =>
+      have := h k t (by simp)
+      simp only [this]
+      split
+      · exact ih _ hrest
+      · rfl
+      · rfl
+    | _ => simp only; exact ih _ hrest
+
+theorem parseFKArgsInner_np {rec_ : Str → Res PV} {s : Str} (h : NPbelow rec_ s.length) :
+    (parseFKArgsInner rec_ s).isPanic = false := by
+  unfold parseFKArgsInner
+  split
+  · rfl
+  · rename_i members hm
+    exact go_np rec_ _ _ (fun k t hkt => h t (Json.parseObject_len hm k t (AMap.mem_ofList hkt)))
+
+theorem parseFKArgsInner_congr {r1 r2 : Str → Res PV} {s : Str} (h : Agree r1 r2 s.length) :
+    parseFKArgsInner r1 s = parseFKArgsInner r2 s := by
+  unfold parseFKArgsInner
+  split
+  · rfl
+  · rename_i members hm
+    exact go_congr r1 r2 _ _ (fun k t hkt => h t (Json.parseObject_len hm k t (AMap.mem_ofList hkt)))
+
+theorem parseFKArgs_np {rec_ : Str → Res PV} {s : Str} {n : Nat} (hn : s.length ≤ n) (h : NPbelow rec_ n) :
+    (parseFKArgs rec_ s).isPanic = false := by
+  unfold parseFKArgs
+  split
+  · rfl
+  · rename_i index _
+    simp only
+    split
+    · rfl
+    · have : (parseFKArgsInner rec_ (List.take (index + 1) s)).isPanic = false :=
+        parseFKArgsInner_np (fun x hx => h x (by simp only [List.length_take] at hx; omega))
+      split
+      · rfl
+      · rfl
+      · rename_i p hp; rw [hp] at this; simp at this
+
+theorem parseFKArgs_congr {r1 r2 : Str → Res PV} {s : Str} {n : Nat} (hn : s.length ≤ n) (h : Agree r1 r2 n) :
+    parseFKArgs r1 s = parseFKArgs r2 s := by
+  unfold parseFKArgs
+  split
+  · rfl
+  · rename_i index _
+    simp only
+    split
+    · rfl
+    · have : parseFKArgsInner r1 (List.take (index + 1) s) = parseFKArgsInner r2 (List.take (index + 1) s) :=
+        parseFKArgsInner_congr (fun x hx => h x (by simp only [List.length_take] at hx; omega))
+      rw [this]
+
+theorem parseFKArgs_after_len {rec_ : Str → Res PV} {s after : Str} {args : List (Str × PV)}
+    (h : parseFKArgs rec_ s = .ok (args, after)) : after.length < s.length := by
+  unfold parseFKArgs at h
+  split at h
+  · simp at h
+  · rename_i index _
+    simp only at h
+    split at h
+    · simp at h
+    · rename_i aft hs
+      have h1 := stripPrefix_len hs
+      have h2 := trimStart_len (List.drop (index + 1) s)
+      split at h
+      · simp only [Res.ok.injEq, Prod.mk.injEq] at h
+        rw [← h.2]
+        simp only [List.length_drop, List.length_cons, List.length_nil] at h1 h2
+        omega
+      · simp at h
+      · simp at h
+end Parse
+end I18nVerif
+
+namespace I18nVerif.Parse
+open I18nVerif Str
+
+theorem parseFormatter_ne_panic (s : Str) (p : String) : Formatter.parseFormatter s ≠ .panic p := by
+  intro h
+  have := Formatter.parseFormatter_np s
+  rw [h] at this
+  simp at this
+
+theorem findVariable_np {rec_ : Str → Res PV} {value : Str} {r : Res PV}
+    (hr : NPbelow rec_ value.length) (h : findVariable rec_ value = some r) : r.isPanic = false := by
+  unfold findVariable at h
+  split at h
+  · simp at h
+  rename_i before rest h1
+  split at h
+  · simp at h
+  rename_i ident after h2
+  have l1 := splitOnce_len h1
+  have l2 := splitOnce_len h2
+  have hb := hr before (by simp at l1; omega)
+  have ha := hr after (by simp at l1 l2; omega)
+  simp only at h
+  repeat' split at h
+  all_goals first
+    | (simp only [Option.some.injEq] at h; subst h; simp_all [parseFormatter_ne_panic])
+    | simp at h
+
+theorem findVariable_congr {r1 r2 : Str → Res PV} {value : Str}
+    (hr : Agree r1 r2 value.length) : findVariable r1 value = findVariable r2 value := by
+  unfold findVariable
+  split
+  · rfl
+  rename_i before rest h1
+  split
+  · rfl
+  rename_i ident after h2
+  have l1 := splitOnce_len h1
+  have l2 := splitOnce_len h2
+  have hb := hr before (by simp at l1; omega)
+  have ha := hr after (by simp at l1 l2; omega)
+  simp only [hb, ha]
+
+theorem findComponent_np {rec_ : Str → Res PV} {value : Str} {r : Res PV}
+    (hr : NPbelow rec_ value.length) (h : findComponent rec_ value = some r) : r.isPanic = false := by
+  unfold findComponent at h
+  split at h
+  · simp at h
+  rename_i key before between after h1
+  have l1 := findValidComponent_len _ _ _ h1
+  have hb := hr before (by omega)
+  have hm := hr between (by omega)
+  have ha := hr after (by omega)
+  repeat' split at h
+  all_goals first
+    | (simp only [Option.some.injEq] at h; subst h; simp_all)
+    | simp at h
+
+theorem findComponent_congr {r1 r2 : Str → Res PV} {value : Str}
+    (hr : Agree r1 r2 value.length) : findComponent r1 value = findComponent r2 value := by
+  unfold findComponent
+  split
+  · rfl
+  rename_i key before between after h1
+  have l1 := findValidComponent_len _ _ _ h1
+  have hb := hr before (by omega)
+  have hm := hr between (by omega)
+  have ha := hr after (by omega)
+  simp only [hb, hm, ha]
+
+theorem findForeignKey_np {rec_ : Str → Res PV} {value : Str} {r : Res PV}
+    (hr : NPbelow rec_ value.length) (h : findForeignKey rec_ value = some r) : r.isPanic = false := by
+  unfold findForeignKey at h
+  split at h
+  · simp at h
+  rename_i before rest h1
+  split at h
+  · simp at h
+  rename_i keypath sep after h2
+  split at h
+  · simp at h
+  rename_i target _
+  have l1 := splitOnce_len h1
+  have l2 := splitAtFirst_len h2
+  have l1' : before.length + 3 + rest.length = value.length := by simpa using l1
+  have hb := hr before (by omega)
+  have hargs : (parseFKArgs rec_ after).isPanic = false :=
+    parseFKArgs_np (n := value.length) (by omega) hr
+  simp only at h
+  split at h
+  · simp only [Option.some.injEq] at h; subst h; rfl
+  · rename_i p hp
+    split at hp
+    · rw [hp] at hargs; simp at hargs
+    · simp at hp
+  · rename_i args after' hok
+    have hal : after'.length < value.length := by
+      split at hok
+      · have := parseFKArgs_after_len hok; omega
+      · simp only [Res.ok.injEq, Prod.mk.injEq] at hok
+        rw [← hok.2]; omega
+    have ha := hr after' hal
+    repeat' split at h
+    all_goals first
+      | (simp only [Option.some.injEq] at h; subst h; simp_all)
+      | simp at h
+
+theorem findForeignKey_congr {r1 r2 : Str → Res PV} {value : Str}
+    (hr : Agree r1 r2 value.length) : findForeignKey r1 value = findForeignKey r2 value := by
+  unfold findForeignKey
+  split
+  · rfl
+  rename_i before rest h1
+  split
+  · rfl
+  rename_i keypath sep after h2
+  split
+  · rfl
+  rename_i target _
+  have l1 := splitOnce_len h1
+  have l2 := splitAtFirst_len h2
+  have l1' : before.length + 3 + rest.length = value.length := by simpa using l1
+  have hb := hr before (by omega)
+  have hargs : parseFKArgs r1 after = parseFKArgs r2 after :=
+    parseFKArgs_congr (n := value.length) (by omega) hr
+  simp only [hargs, hb]
+  split
+  · rfl
+  · rfl
+  · rename_i args after' hok
+    have hal : after'.length < value.length := by
+      split at hok
+      · have := parseFKArgs_after_len hok; omega
+      · simp only [Res.ok.injEq, Prod.mk.injEq] at hok
+        rw [← hok.2]; omega
+    rw [hr after' hal]
+
+theorem newF_np : ∀ (fuel : Nat) (s : Str), s.length < fuel → (newF fuel s).isPanic = false := by
+  intro fuel
+  induction fuel with
+  | zero => intro s h; omega
+  | succ fuel ih =>
+    intro s hs
+    have hr : NPbelow (newF fuel) s.length := fun x hx => ih x (by omega)
+    simp only [newF]
+    split
+    · rename_i r h; exact findForeignKey_np hr h
+    · split
+      · rename_i r h; exact findComponent_np hr h
+      · split
+        · rename_i r h; exact findVariable_np hr h
+        · rfl
+
+theorem newF_fuel : ∀ (fuel fuel' : Nat) (s : Str), s.length < fuel → s.length < fuel' →
+    newF fuel s = newF fuel' s := by
+  intro fuel
+  induction fuel with
+  | zero => intro _ s h; omega
+  | succ fuel ih =>
+    intro fuel' s hs hs'
+    cases fuel' with
+    | zero => omega
+    | succ fuel' =>
+      have hr : Agree (newF fuel) (newF fuel') s.length := fun x hx => ih fuel' x (by omega) (by omega)
+      simp only [newF]
+      rw [findForeignKey_congr hr, findComponent_congr hr, findVariable_congr hr]
+
+end I18nVerif.Parse
